@@ -35,6 +35,7 @@ type Obligation struct {
 	Kind    string
 	Desc    string
 	Func    string
+	Group   string // vacuity.backedge: the loop the guard belongs to
 	nlines  int
 	reach   string
 	goal    string
@@ -1465,6 +1466,12 @@ func (vc *VC) backEdge(b, h *ssa.BasicBlock, st *State, cond string) {
 		delete(vc.vals, ph)
 	}
 	env := &Env{vc: vc, cur: st, old: vc.entry, vars: map[string]SVal{}, loop: lp, atHeader: true, block: h, iterOld: lp.hdrState}
+	// vacuity guard: some back edge of every loop must be reachable under the contract assumptions, otherwise the
+	// preservation proofs of its invariants say nothing (kind vacuity.backedge, evaluated per loop in main.go)
+	og := vc.oblige(fmt.Sprintf("vacuity.backedge.loop%d", lp.ordinal), "", reach, "true", "a back edge of the loop is reachable under the contract assumptions")
+	og.expect = "sat"
+	og.Kind = "vacuity.backedge"
+	og.Group = fmt.Sprintf("%s#loop%d", vc.funcName, lp.ordinal)
 	for _, hnt := range ls.Hints {
 		env.applyHint(hnt, reach)
 	}
